@@ -224,3 +224,48 @@ void board_fail(int code, const char *msg)
     if (B) { lock(); if (!B->verdict) { B->verdict = code; snprintf(B->msg, sizeof B->msg, "%s", msg); } unlock(); die_on_verdict(); }
     fprintf(stderr, "%s\n", msg); _exit(40 + code);
 }
+
+
+/* ------------------------------------------------------------------ file-access race check
+ * Accesses of different ranks inside one synchronisation epoch (= between two collectives that really synchronise:
+ * Allreduce, Barrier, Allgather, Alltoall over all ranks) are unordered by happens-before, whatever the MPI-IO layer happens
+ * to do: an overlap with at least one write is a race for SOME schedule, so it is reported for EVERY schedule. */
+void board_acc_reset(void)
+{
+    if (!active) return;
+    B->nacc[me] = 0;
+}
+
+void board_acc_log(long epoch, int kind, long lo, long hi)
+{
+    int k;
+    if (!active || hi <= lo) return;
+    k = B->nacc[me] % BD_RACELOG;
+    B->acc[me][k].epoch = epoch; B->acc[me][k].kind = kind; B->acc[me][k].lo = lo; B->acc[me][k].hi = hi; B->acc[me][k].op = B->r[me].op;
+    __sync_synchronize();
+    B->nacc[me]++;
+}
+
+void board_acc_check(long epoch)
+{
+    int o, i, j, ni, nj;
+    if (!active) return;
+    __sync_synchronize();
+    ni = B->nacc[me] < BD_RACELOG ? B->nacc[me] : BD_RACELOG;
+    for (o = me + 1; o < B->np; o++) {
+        nj = B->nacc[o] < BD_RACELOG ? B->nacc[o] : BD_RACELOG;
+        for (i = 0; i < ni; i++) {
+            if (B->acc[me][i].epoch != epoch) continue;
+            for (j = 0; j < nj; j++) {
+                if (B->acc[o][j].epoch != epoch) continue;
+                if (!(B->acc[me][i].kind || B->acc[o][j].kind)) continue;        /* two reads */
+                if (B->acc[me][i].lo < B->acc[o][j].hi && B->acc[o][j].lo < B->acc[me][i].hi) {
+                    char m[256];
+                    snprintf(m, sizeof m, "FILE-RACE: rank %d %s [%ld,%ld) and rank %d %s [%ld,%ld) in op %d without a synchronising collective in between",
+                             me, B->acc[me][i].kind ? "writes" : "reads", B->acc[me][i].lo, B->acc[me][i].hi, o, B->acc[o][j].kind ? "writes" : "reads", B->acc[o][j].lo, B->acc[o][j].hi, B->acc[me][i].op);
+                    board_fail(6, m);
+                }
+            }
+        }
+    }
+}
